@@ -13,6 +13,7 @@ CONSTANTS
   Clients = {clients}
   MaxInserts = {ins}
   MaxReqs = {reqs}
+  MaxStatements = {ms}
   Dev = {dev}
 INVARIANTS AnswersOK ErrorsMapped InsertsOK Accounting StaysAlive {emit}
 {props}
@@ -23,6 +24,7 @@ CONSTANTS
   Clients = {"c1", "c2", "c3"}
   MaxInserts = 100000
   MaxReqs = 100000
+  MaxStatements = 1
   Dev = {}
 INVARIANTS NotDone AnswersOK ErrorsMapped InsertsOK
 CONSTRAINT Track
@@ -71,17 +73,17 @@ def run(prop, tier, replay_path=None):
     quick = tier == "quick"
     jobs = []
     # 1. the design: two connections, safety and liveness
-    r = run_tlc("MC_http", write_cfg("c17_mc", MC.format(clients='{"c1", "c2"}', ins=2, reqs=3 if quick else 4, dev="{}", emit="", props="PROPERTIES Answered")),
+    r = run_tlc("MC_http", write_cfg("c17_mc", MC.format(clients='{"c1", "c2"}', ins=2, reqs=3, ms=1 if quick else 2, dev="{}", emit="", props="PROPERTIES Answered")),
                 workers=NCPU // 2, timeout=3000)
     if r["violated"]:
         raise MachineryError("Http.tla: %s violated" % r["violated"])
     jobs.append(tlc_job_summary(r))
     # 2. vacuity guard: the repaired deviation must violate ErrorsMapped
-    r = run_tlc("MC_http", write_cfg("c17_dev", MC.format(clients='{"c1"}', ins=1, reqs=2, dev='{"QueryEndpointUnwraps"}', emit="", props="")), workers=2, timeout=600)
+    r = run_tlc("MC_http", write_cfg("c17_dev", MC.format(clients='{"c1"}', ins=1, reqs=2, ms=1, dev='{"QueryEndpointUnwraps"}', emit="", props="")), workers=2, timeout=600)
     if r["violated"] != "ErrorsMapped":
         raise MachineryError("model mutant QueryEndpointUnwraps is not caught by ErrorsMapped (%r)" % r["violated"])
     # 3. sequential schedules for the replay
-    r = run_tlc("MC_http", write_cfg("c17_emit", MC.format(clients='{"c1"}', ins=2, reqs=2 if quick else 3, dev="{}", emit="Emit", props="")), workers=NCPU // 2, timeout=3000)
+    r = run_tlc("MC_http", write_cfg("c17_emit", MC.format(clients='{"c1"}', ins=2, reqs=2 if quick else 3, ms=3, dev="{}", emit="Emit", props="")), workers=NCPU // 2, timeout=3000)
     if r["violated"]:
         raise MachineryError("Http.tla: %s violated" % r["violated"])
     lines = extract_replay_lines(r["out"])
